@@ -468,8 +468,9 @@ def oracle_ticks(spec):
         if isinstance(got, bool) or not isinstance(got, (int, np.integer)):
             o.add("ticks-not-integer", t=t, got=repr(got))
             continue
-        # float32 input is computed in single precision (numpy promotion rules)
-        rel = Fraction(1, 10 ** 6) if dt == "float32" else Fraction(1, 10 ** 9)
+        # float32 input is converted in double precision too (repaired after C14's thorough tier met a
+        # rebuilt part whose float32 onset rounded to the neighbouring tick)
+        rel = Fraction(1, 10 ** 9)
         tol = Fraction(1, 2) + rel * (1 + abs(exact))
         if abs(Fraction(int(got)) - exact) > tol:
             o.add("ticks-not-nearest", t=t, ppq=ppq, mpq=mpq, got=int(got), exact=float(exact))
